@@ -2,10 +2,10 @@ import ExoVerif.Model.Blocks
 /-!
 # C11 — liveness (partial)
 
-`C11_full` — no reachable state makes block processing halt — is false for the code as it is: five
+`C11_full` — no reachable state makes block processing halt — is false for the code as it is: four
 concrete halts are exhibited in the model and replayed on the real application by the harness
 (`harness/dom_liveness.go`, sigs `halt:…`). `C11_block_never_halts_partial` proves that outside
-those five state shapes the modelled Begin/EndBlock pieces never halt, and
+those four state shapes the modelled Begin/EndBlock pieces never halt, and
 `C11_deliver_panic_is_rejection` that a panic during DeliverTx is a rejected tx with the state
 untouched. Panics inside Cosmos-SDK, IAVL, CometBFT, go-ethereum/evmos are not modelled; the
 repository's remaining panic-capable sites on block paths are listed and classified in
@@ -18,8 +18,64 @@ def C11_full : Prop := ∀ s : St, block s ≠ .halt
 
 def okState : St := { slashedOperatorValue := none, endingProposals := 0, avsGroups := [], maxAmountTimesPrice := 0, maxUsdValueInt := 0 }
 
-/-- F-04b: slash of an operator whose StakingAndWaitUnbonding is zero -/
-theorem C11_witness_slash_zero_value : block { okState with slashedOperatorValue := some 0 } = .halt := by decide
+/-- F-04b (repaired in the repository): SlashAssets never divides by zero; for an operator without
+positive value it returns an error, which the caller logs. -/
+theorem C11_guard_slashAssets (slashUSDValue v : Int) : slashProportion slashUSDValue v ≠ none := by
+  unfold slashProportion decQuo?
+  by_cases h : 0 < v
+  · have : v ≠ 0 := by omega
+    simp [h, this]
+  · simp [h]
+
+theorem C11_slash_never_halts (v : Int) : slashAssets v ≠ .halt := by
+  unfold slashAssets
+  have := C11_guard_slashAssets 1 v
+  cases h : slashProportion 1 v with
+  | none => exact absurd h this
+  | some r => cases r <;> simp
+
+/-! ### guard lemmas for the divisions on block paths (referenced by name from the review table of
+`Props/C11Tie.lean`) -/
+
+/-- a Quo executed under `if !d.IsZero()` (x/avs AfterEpochEnd threshold, UpdateNSTBalance proportion) -/
+theorem C11_guard_quo_after_not_zero (a d : Int) (h : d ≠ 0) : decQuo? a d ≠ none := by
+  simp [decQuo?, h]
+
+/-- a Quo executed under `if d.IsPositive()` (AllocateTokensToStakers) -/
+theorem C11_guard_quo_after_is_positive (a d : Int) (h : 0 < d) : decQuo? a d ≠ none :=
+  C11_guard_quo_after_not_zero a d (by omega)
+
+/-- CalculateUSDValue's divisor 10^(assetDecimal+priceDecimal) is never zero -/
+theorem C11_guard_usdValue_divisor (ad pd : Int) : usdDivisor ad pd ≠ 0 := by
+  unfold usdDivisor
+  have : (10 : Int) ^ (Int.toNat (ad + pd)) ≠ 0 := Int.pow_ne_zero (by decide)
+  omega
+
+/-- TokensFromShares never reaches its Quo with a zero total share -/
+theorem C11_guard_tokensFromShares (s t a : Int) : tokensFromSharesQuo? s t a ≠ none := by
+  unfold tokensFromSharesQuo?
+  by_cases h1 : t < s
+  · simp [h1]
+  · by_cases h2 : t = 0
+    · subst h2
+      by_cases h3 : a = 0 <;> simp [h1, h3]
+    · simp [h1, h2, decQuo?]
+
+/-- AllocateTokens returns before dividing when the previous total power is zero -/
+theorem C11_guard_allocateTokens (v t : Int) : allocateFraction? v t ≠ none := by
+  unfold allocateFraction?
+  by_cases h : t = 0
+  · simp [h]
+  · have : t * decOne ≠ 0 := by
+      have hd : decOne ≠ 0 := by decide
+      exact Int.mul_ne_zero h hd
+    simp [h, decQuo?, this]
+
+theorem C11_guard_median_divisor : medianDivisor ≠ 0 := by decide
+
+/-- the regression state of the directed scenario: value zero ⇒ logged, not halted -/
+theorem C11_slash_zero_value_is_logged : slashAssets 0 = .logged := by decide
+
 /-- F-11a: a governance proposal reaches the end of its voting period -/
 theorem C11_witness_gov_tally : block { okState with endingProposals := 1 } = .halt := by decide
 /-- F-11b: a task-result group without any non-empty signature -/
@@ -43,7 +99,7 @@ theorem avsEpochEnd_ok (groups : List (List TaskRes)) (h : ∀ g ∈ groups, g.a
     simp [avsGroup, h g hg]
   simp [this]
 
-/-- Outside the five recorded state shapes, no modelled piece of Begin/EndBlock halts. -/
+/-- Outside the four recorded state shapes, no modelled piece of Begin/EndBlock halts. -/
 theorem C11_block_never_halts_partial (s : St) (inv : Inv s) : block s ≠ .halt := by
   have h1 : usdValueUpdate s.maxAmountTimesPrice = .ok := by simp [usdValueUpdate, inv.usdFits]
   have h2 : avsEpochEnd s.avsGroups = .ok := avsEpochEnd_ok _ inv.groupsSigned
@@ -51,18 +107,21 @@ theorem C11_block_never_halts_partial (s : St) (inv : Inv s) : block s ≠ .halt
     have := inv.powerFits
     simp only [dogfoodEndBlock]; split <;> first | omega | rfl
   have h5 : govEndBlock s.endingProposals = .ok := by simp [govEndBlock, inv.noTally]
-  have h3 : slashStep s.slashedOperatorValue = .ok := by
+  have h3 : slashStep s.slashedOperatorValue ≠ .halt := by
     cases hv : s.slashedOperatorValue with
-    | none => rfl
-    | some v => simp [slashStep, slashAssets, inv.slashHasValue v hv]
-  simp [block, h1, h2, h3, h4, h5, seqO]
+    | none => simp [slashStep]
+    | some v => simpa [slashStep] using C11_slash_never_halts v
+  simp only [block, h1, h2, h4, h5, seqO]
+  cases hs : slashStep s.slashedOperatorValue with
+  | halt => exact absurd hs h3
+  | ok => simp
+  | logged => simp
 
 /-- the hypothesis is satisfiable by a non-trivial state: a slash of an operator with value, a
 signed task group, a large but representable power -/
-example : Inv { slashedOperatorValue := some 100, endingProposals := 0,
+example : Inv { slashedOperatorValue := some 0, endingProposals := 0,
                 avsGroups := [[{ taskId := 1, hasSignature := true }, { taskId := 1, hasSignature := false }]],
                 maxAmountTimesPrice := 10 ^ 30, maxUsdValueInt := 10 ^ 12 } where
-  slashHasValue := by intro v h; cases h; decide
   noTally := rfl
   groupsSigned := by decide
   powerFits := by decide
@@ -71,8 +130,11 @@ example : Inv { slashedOperatorValue := some 100, endingProposals := 0,
 /-- Each excluded shape is necessary: dropping any one clause of `Inv` admits a halting state
 (the witnesses above satisfy the other four clauses). -/
 theorem C11_inv_clauses_necessary :
-    block { okState with slashedOperatorValue := some 0 } = .halt ∧ block { okState with endingProposals := 1 } = .halt :=
-  ⟨C11_witness_slash_zero_value, C11_witness_gov_tally⟩
+    block { okState with endingProposals := 1 } = .halt ∧
+    block { okState with avsGroups := [[{ taskId := 1, hasSignature := false }]] } = .halt ∧
+    block { okState with maxUsdValueInt := 2 ^ 63 } = .halt ∧
+    block { okState with maxAmountTimesPrice := 2 ^ 256 } = .halt :=
+  ⟨C11_witness_gov_tally, C11_witness_avs_unsigned_group, C11_witness_power_out_of_int64, C11_witness_dec_overflow⟩
 
 /-- A panic (or error) while delivering a transaction is a rejection: the outcome is `rejected`
 and the state is exactly the state before the tx; an accepted tx is the only way to change state. -/
